@@ -34,8 +34,10 @@ def seq(t):
                 return None
             return base + other
         return None
-    if t[0] == "call" and (t[1].endswith("::into_iter") or t[1].endswith("IntoIterator>::into_iter")) and len(t[2]) == 1:
+    if t[0] == "call" and (t[1].endswith("::into_iter") or t[1].endswith("IntoIterator>::into_iter") or t[1].endswith("::iter")) and len(t[2]) == 1:
         return seq(t[2][0])
+    if t[0] == "iter":
+        return seq(t[1])
     if t[0] == "after_loop":
         return [("atom", t)]
     return None
